@@ -172,14 +172,16 @@ theorem cancel_covers_descendants (s : State) (b g d : Nat) (hd : g ∈ ancestor
 
 /-! ## (5) requests are answered normally under any combination of cancelled groups -/
 
-/-- scheduling, creating and starting requests for an existing job always get a procedure answer (`rc`), never an
-error, whatever groups are cancelled -/
-theorem requests_answered (s : State) (b j a i : Nat) (ts : Int) (d : Nat) (job : Job) (hj : findJob s b j = some job) :
+/-- scheduling, creating and starting requests for an existing job on an existing instance (or for an attempt that is
+already recorded) always get a procedure answer (`rc`), never an error, whatever groups are cancelled -/
+theorem requests_answered (s : State) (b j a i : Nat) (ts : Int) (d : Nat) (job : Job) (hj : findJob s b j = some job)
+    (hfk : attemptFkFails s b j (some a) (some i) = false) :
     (∃ rc, (schedule s b j a i).2 = .ok rc) ∧ (creating s b j a i ts d).2 = .ok 0 ∧ (started s b j a i ts d).2 = .ok 0 := by
+  have hj' : findJobFk s b j (some a) (some i) = some job := by simp [findJobFk, hfk, hj]
   refine ⟨?_, ?_, ?_⟩
-  · unfold schedule; rw [hj]; dsimp only; split_ifs <;> exact ⟨_, rfl⟩
-  · unfold creating startLike; rw [hj]; dsimp only; split_ifs <;> rfl
-  · unfold started startLike; rw [hj]; dsimp only; split_ifs <;> rfl
+  · unfold schedule; rw [hj']; dsimp only; split_ifs <;> exact ⟨_, rfl⟩
+  · unfold creating startLike; rw [hj']; dsimp only; split_ifs <;> rfl
+  · unfold started startLike; rw [hj']; dsimp only; split_ifs <;> rfl
 
 /-! ## non-vacuity -/
 
